@@ -10,9 +10,11 @@ def plan(tier, seed):
     return {
         "kani": [KGroup("D", hs, timeout=1500 if tier == "quick" else 7200, jobs=3, mem_gb=10, stubbing=True)],
         "smt": {"features": (), "workers": 8,
-                "kernels": lemire_rows("f64", tier, seed, "lemire_lossy_rel", 3) + lemire_rows("f32", tier, seed, "lemire_lossy_rel", 2)},
-        "functions_encoded": ["lexical_core::parse_with_options / parse_partial_with_options (lossy)", "lexical_parse_float::lemire::compute_float (lossy vs exact, MIR -> SMT)"],
-        "bounds": ["grammar layer: arbitrary bytes len<=4 (5 thorough)", "compute_float(q,w,true) vs compute_float(q,w,false), per table row q (boundary + seeded rows in quick, all rows thorough), all 64-bit w: equal, or the exact result is the error marker"],
+                "kernels": lemire_rows("f64", tier, seed, "lemire_lossy_rel", 3) + lemire_rows("f32", tier, seed, "lemire_lossy_rel", 2)
+                + (["lemire_wrap_f64@exponent=5", "lemire_wrap_f32@exponent=0"] if tier == "quick" else
+                   ["lemire_wrap_f64@exponent=%d" % q for q in (-20, -5, 0, 5, 22, 27, 28, 55, 100, 300)] + ["lemire_wrap_f32@exponent=%d" % q for q in (-20, 0, 10, 30)])},
+        "functions_encoded": ["lexical_core::parse_with_options / parse_partial_with_options (lossy)", "lexical_parse_float::lemire::compute_float (lossy vs exact, MIR -> SMT)", "lexical_parse_float::lemire::lemire (truncated-digits second pass: with lossy never the error marker)"],
+        "bounds": ["grammar layer: arbitrary bytes len<=4 (5 thorough)", "lemire(num, lossy): per exponent row, every mantissa (19-digit mantissas when digits were truncated), many_digits and lossy symbolic: lossy => result is a float, not the error marker", "compute_float(q,w,true) vs compute_float(q,w,false), per table row q (boundary + seeded rows in quick, all rows thorough), all 64-bit w: equal, or the exact result is the error marker"],
         "outside_claim": ["within-one-ULP when the exact algorithm falls back to the slow path", "Bellerophon (compact/radix) lossy"],
         "stubs_and_assumes": ["grammar harnesses stub the numeric back end"],
         "assumptions": [],
